@@ -39,6 +39,8 @@ def run(chk):
                'OS directory semantics; no concurrent writers')
     for c in (K.object_family_add_contract(), KP.memory_add_contract()):
         chk.prove(c); chk.canary(c)
+    from vf.check import SRC_ROOT
+    K.filename_obligations(chk, SRC_ROOT)          # distinct serialized instants get distinct file names
     pool = D.pool(); labels = [l for l, _ in pool]; byl = dict(pool)
     tmp = tempfile.mkdtemp(prefix='vf-c11-')
     n_hist = [0]
